@@ -104,7 +104,7 @@ def _corr_chunk(args):
             d = [{"layer": "L4", "text": text, "what": "exception: {}: {}".format(tl.classify_exc(e), str(e)[:200])}]
             st = {"pairs": 0, "equations_evaluated": 0, "horizons": 0}
         for k in st:
-            tot[k] += st[k]
+            tot[k] = tot.get(k, 0) + st[k]
         tot["programs"] += 1
         dis += d
     return tot, dis
@@ -116,7 +116,7 @@ def correspondence(ctx):
     dis = []
     for st, d in par.pmap(_corr_chunk, work, ctx.jobs):
         for k in st:
-            tot[k] += st[k]
+            tot[k] = tot.get(k, 0) + st[k]
         dis += d
     tot["sample"] = {"law": pairs[0][0], "lhs": tl.render_tel(pairs[0][1]), "rhs": tl.render_tel(pairs[0][2])}
     return tot, dis
@@ -128,7 +128,7 @@ def _search_chunk(args):
         if head:
             t1 = "#program initial. &tel {{ {} }}. #program always. {{ a; b }}.".format(tl.render_tel(lhs))
             t2 = "#program initial. &tel {{ {} }}. #program always. {{ a; b }}.".format(tl.render_tel(rhs))
-            r1, r2 = oracles.impl_models(t1, H), oracles.impl_models(t2, H)
+            r1, r2 = oracles.impl_models(t1, H, dedup=True), oracles.impl_models(t2, H, dedup=True)
             if r1 != r2:
                 fails.append({"kind": "head-law", "law": name, "text": t1 + "\n%%% versus\n" + t2, "input": [t1, t2],
                               "got": [str(r1)[:300], str(r2)[:300]]})
